@@ -100,7 +100,8 @@ def classify(diags, lm, gen_path):
         rendered = d.get('rendered', '')
         if d.get('code') is not None or not spans and 'verus' not in rendered.lower():
             # rustc error (type error, unresolved name ...): the tree no longer fits the subset / shim
-            compile_errors.append({'message': msg, 'rendered': rendered[:3000]})
+            compile_errors.append({'message': msg, 'rendered': rendered[:3000],
+                                   'lines': [sp['line_start'] for sp in spans]})
             continue
         prim = [s for s in spans if s.get('is_primary')]
         sec = [s for s in spans if not s.get('is_primary')]
@@ -116,6 +117,7 @@ def classify(diags, lm, gen_path):
             continue
         if 'not supported' in msg or 'unsupported' in msg.lower() or 'Verus does not' in msg or 'is not allowed' in msg:
             entry['kind'] = 'unsupported'
+            entry['lines'] = [sp['line_start'] for sp in spans]
             compile_errors.append(entry)
             continue
         lab = None
@@ -279,20 +281,34 @@ def main():
     tag = '%s_%d' % (prop, os.getpid())
     for mode in modes:
         out = os.path.join(GEN_DIR, 'ats_%s_%s.rs' % (mode, tag))
-        try:
-            report, linemap = gen.generate(mode, out)
-        except (gen.GenError, gen.LexError) as e:
-            log('UNDECIDED property=%s: extraction failed (%s): %s' % (prop, mode, e))
-            return 2
-        lm = LineMap(linemap)
-        extra = []
-        if a.tier == 'thorough' and seed:
-            extra = ['--smt-option', 'smt.random_seed=%d' % (seed % 1000)]
-        res = run_verus(out, extra)
-        if res['timeout']:
-            log('UNDECIDED property=%s: verifier timed out (%s)' % (prop, mode))
-            return 2
-        failures, undecided, compile_errors = classify(res['diags'], lm, out)
+        force = {}
+        for attempt in range(4):
+            try:
+                report, linemap = gen.generate(mode, out, None, force)
+            except (gen.GenError, gen.LexError) as e:
+                log('UNDECIDED property=%s: extraction failed (%s): %s' % (prop, mode, e))
+                return 2
+            lm = LineMap(linemap)
+            extra = []
+            if a.tier == 'thorough' and seed:
+                extra = ['--smt-option', 'smt.random_seed=%d' % (seed % 1000)]
+            res = run_verus(out, extra)
+            if res['timeout']:
+                log('UNDECIDED property=%s: verifier timed out (%s)' % (prop, mode))
+                return 2
+            failures, undecided, compile_errors = classify(res['diags'], lm, out)
+            # a repository function the verifier cannot translate (new std call, unsupported construct): stub that
+            # function only (contract assumed, its properties undecided) and decide the rest
+            culprits = {}
+            for ce in compile_errors:
+                for ln in ce.get('lines', []):
+                    f = lm.func_at(ln)
+                    if f and not f['qname'].startswith(('shim', 'spec')):
+                        culprits[f['qname'].split('#')[0]] = ce['message'][:200]
+            culprits = {q: m for q, m in culprits.items() if q not in force}
+            if not compile_errors or not culprits:
+                break
+            force.update(culprits)
         # retry once with a larger resource limit when the only problem is the solver budget
         if not failures and not compile_errors and any(u['kind'] == 'rlimit' for u in undecided):
             os.environ['VERIF_RLIMIT'] = '400'
@@ -479,6 +495,13 @@ def finish(prop, tier, seed, results, t_start, extra=None):
         for l in labels_here:
             fns.add(l['label'].split('::closure#')[0].split('::loop#')[0].rsplit('::', 1)[0])
         fn_contracted |= fns
+        fns_explicit = set(l['label'].split('::closure#')[0].split('::loop#')[0].rsplit('::', 1)[0]
+                           for l in lm.labels if prop in l['props'])
+        for q, why in (r['report'].get('unextractable') or {}).items():
+            if q in fns_explicit:
+                undecided_msgs.append('%s: %s is outside the extraction rules / verifier subset (%s); its clauses are not decided'
+                                      % (mode, q, why[:160]))
+        per_mode_unx = r['report'].get('unextractable') or {}
         if r['compile_errors']:
             undecided_msgs.append('%s: the generated file does not compile / uses an unsupported construct: %s'
                                   % (mode, r['compile_errors'][0]['message'][:300]))
@@ -495,6 +518,7 @@ def finish(prop, tier, seed, results, t_start, extra=None):
                           'functions_contracted': sum(1 for f in r['report']['functions'] if f['contracted']),
                           'uncontracted': r['report'].get('uncontracted'),
                           'rules': r['report']['rules'],
+                          'unextractable_functions_assumed': r['report'].get('unextractable') or {},
                           'cheat_scan': cheat_scan(r['text'])}
         vac = r.get('vacuity') or {}
         per_mode[mode]['vacuity'] = vac
